@@ -32,4 +32,18 @@ def run(tier, seed):
     res.add(run_functions(["CParser.parse#prologue", "CLexer.input", "CLexer._init_state", "CParser._is_type_in_scope",
                            "CParser._add_typedef_name", "CParser._add_identifier", "CParser._push_scope", "CParser._pop_scope"],
                           "C01/smt", tier))
+    # typedef feedback through the real lexer/parser composition (valid programs with local re-declarations must not be rejected)
+    from props import scopesweep
+    sw = scopesweep.obligations(tier)
+    sw.obs = [o for o in sw.obs if o.name.endswith("/core")]
+    for o in sw.obs:
+        o.name = "C01/" + o.name[4:]
+    res.add(sw)
+    # the switch regrouping runs inside the parser on every switch statement: a body it cannot handle is a rejected program
+    # / a stray exception (bounded enumeration, shared with C05)
+    from props import switchcases
+    sc = switchcases.obligations(tier)
+    for o in sc.obs:
+        o.name = "C01/" + o.name[4:]
+    res.add(sc)
     return res
